@@ -646,6 +646,80 @@ def run_inplace_reuse_cases(res, rng):
     res["counters"]["inplace_reuse_checked"] = res["counters"].get("inplace_reuse_checked", 0) + 1
 
 
+def run_constructor_and_empty_cases(res):
+    """(a) Every spelling of autograd's dict / list / tuple constructors on TRACED containers (mapping + keyword
+    overrides, pairs + keywords, keywords only, copy of a traced dict, list / tuple of a traced sequence, of a
+    generator, of a range of traced items), against closed-form gradients. (b) EMPTY top-level arguments (an empty
+    tuple / list / dict differentiated on its own or next to a non-empty one): the gradient has the argument's
+    (empty) nesting whatever the function concatenates to it or reads around it."""
+    import autograd.builtins as ab
+    import autograd.numpy as anp
+    from autograd import grad
+    from autograd.core import make_jvp
+
+    a0, b0 = 1.3, 0.7
+    P = {"a": a0, "b": b0}
+    C = {
+        "dict_mapping_plus_kwargs": (lambda d: (lambda e: e["a"] * e["b"] ** 3 + e["c"])(ab.dict(d, c=d["a"] * 2.0, b=d["b"] * 1.0)), {"a": b0**3 + 2.0, "b": 3 * a0 * b0**2}),
+        "dict_mapping_override_constant": (lambda d: (lambda e: e["a"] * e["b"])(ab.dict(d, b=5.0)), {"a": 5.0, "b": 0.0}),
+        "dict_pairs_plus_kwargs": (lambda d: (lambda e: e["x"] * e["y"] + e["z"])(ab.dict([("x", d["a"]), ("y", d["b"])], z=d["a"] ** 2)), {"a": b0 + 2 * a0, "b": a0}),
+        "dict_kwargs_only": (lambda d: (lambda e: e["x"] ** 2 * e["y"])(ab.dict(x=d["a"], y=d["b"])), {"a": 2 * a0 * b0, "b": a0**2}),
+        "dict_copy_of_traced": (lambda d: (lambda e: e["a"] * e["b"] ** 3)(ab.dict(d)), {"a": b0**3, "b": 3 * a0 * b0**2}),
+        "dict_of_items": (lambda d: (lambda e: e["a"] / e["b"])(ab.dict(d.items())), {"a": 1 / b0, "b": -a0 / b0**2}),
+        "list_of_values_generator": (lambda d: (lambda l: l[0] * l[1] ** 2)(ab.list(v for v in (d["a"], d["b"]))), {"a": b0**2, "b": 2 * a0 * b0}),
+        "tuple_of_list": (lambda d: (lambda t: t[0] ** 2 + t[1] * t[0])(ab.tuple([d["a"], d["b"]])), {"a": 2 * a0 + b0, "b": a0}),
+        "list_plus_tuple_to_list": (lambda d: (lambda l: l[0] * l[2] + l[1])(ab.list((d["a"], 3.0)) + [d["b"]]), {"a": b0, "b": a0}),
+    }
+    for name, (f, want) in C.items():
+        for mode in ("rev", "fwd"):
+            res["evaluations"] += 1
+            sig = {"engine": "containers", "family": "constructor_idiom", "fn": name, "mode": mode}
+            case = {"kind": "ctor_empty", "fn": name, "mode": mode}
+            try:
+                with warnings.catch_warnings():
+                    warnings.simplefilter("ignore")
+                    if mode == "rev":
+                        got = grad(f)(dict(P))
+                    else:
+                        got = {k: float(make_jvp(f, dict(P))({"a": float(k == "a"), "b": float(k == "b")})[1]) for k in P}
+            except NotImplementedError:
+                res["not_judged"]["raised:NotImplementedError"] = res["not_judged"].get("raised:NotImplementedError", 0) + 1
+                continue
+            except Exception as e:
+                res["violations"].append({"sig": dict(sig, symptom="exception:" + type(e).__name__), "case": case, "detail": traceback.format_exc()[-300:]})
+                continue
+            if not (isinstance(got, dict) and set(got) == set(want) and all(abs(float(got[k]) - want[k]) <= 1e-12 * (1 + abs(want[k])) for k in want)):
+                res["violations"].append({"sig": dict(sig, symptom="wrong_value"), "case": case, "detail": "gradient %r, closed form %r" % (got, want)})
+            else:
+                res["judged"][sig_key(sig)] = 1
+    x3 = onp.array([0.5, -1.5])
+    E = {
+        "tuple_right_of_plus": (lambda e: (lambda t: t[0] * t[1])((5.0, 2.0) + e), ()),
+        "list_right_of_plus": (lambda e: (lambda t: t[0] * t[1])([5.0, 2.0] + e), []),
+        "tuple_left_of_plus": (lambda e: (lambda t: t[0] * t[1])(e + (5.0, 2.0)), ()),
+        "len_and_iteration": (lambda e: 3.0 + len(e) + sum(1.0 for _ in e), ()),
+        "dict_get_default": (lambda e: e.get("missing", 2.5) * 2.0, {}),
+        "dict_iteration": (lambda e: 1.0 + sum(2.0 for _ in e.items()), {}),
+        "nested_empties": (lambda e: 1.0 + len(e[0]) + len(e[1]["k"]), ((), {"k": []})),
+    }
+    for name, (f, arg) in E.items():
+        res["evaluations"] += 1
+        sig = {"engine": "containers", "family": "empty_toplevel", "fn": name}
+        case = {"kind": "ctor_empty", "fn": name, "mode": "rev"}
+        try:
+            with warnings.catch_warnings():
+                warnings.simplefilter("ignore")
+                got = grad(f)(arg)
+                pair = grad(lambda e, x: f(e) * anp.sum(x * x), (0, 1))(arg, x3)
+        except Exception as e:
+            res["violations"].append({"sig": dict(sig, symptom="exception:" + type(e).__name__), "case": case, "detail": traceback.format_exc()[-300:]})
+            continue
+        if common.sdesc(got) != common.sdesc(arg) or common.sdesc(pair[0]) != common.sdesc(arg) or not onp.allclose(pair[1], 2 * x3 * f(arg), rtol=1e-13):
+            res["violations"].append({"sig": dict(sig, symptom="wrong_structure"), "case": case, "detail": "gradient w.r.t. the empty argument %r is %r (alone) / %r (next to an array argument)" % (arg, got, pair)})
+        else:
+            res["judged"][sig_key(sig)] = 1
+
+
 def run_namedtuple_cases(res, rng):
     """Named-tuple results of linalg used as containers inside a differentiated function."""
     import autograd.numpy as anp
@@ -716,6 +790,8 @@ def run_shard(pid, tier, seed, idx, n):
         run_dict_order_cases(res, onp.random.Generator(onp.random.PCG64([seed, 61])))
     if idx == 2 % n:
         run_inplace_reuse_cases(res, onp.random.Generator(onp.random.PCG64([seed, 67])))
+    if idx == 3 % n:
+        run_constructor_and_empty_cases(res)
     res["sets"] = {k: sorted(v) for k, v in res["sets"].items()}
     return res
 
@@ -731,6 +807,9 @@ def replay(pid, case):
         for sd in range(4):
             run_inplace_reuse_cases(res, onp.random.Generator(onp.random.PCG64([sd, 67])))
         res["violations"] = [v for v in res["violations"] if v["case"]["container"] == case["container"] and v["case"]["hist"][-1] == case["hist"][-1]][:1]
+    elif case["kind"] == "ctor_empty":
+        run_constructor_and_empty_cases(res)
+        res["violations"] = [v for v in res["violations"] if v["case"] == case]
     elif case["kind"] == "dict_order":
         run_dict_order_cases(res, onp.random.Generator(onp.random.PCG64(61)))
         res["violations"] = [v for v in res["violations"] if v["case"] == case]
